@@ -362,7 +362,7 @@ func ruleR10() *Rule {
 							continue
 						}
 						ev := errValueOfCall(cs2)
-						if callee.Name() == "reset" {
+						if namedFn(callee, "interim.reset") {
 							sawReset = true
 						}
 						if ev == nil || nilnessAt(ev, cs.Block()) != isNil {
